@@ -725,6 +725,36 @@ def run_op(sess, op, outdir):
     return rec, proj
 
 
+def cli_inprocess(text, outdir):
+    """the programmatic entry point (`run_scriptplan`: what `plan report` calls) on the same text, in THIS interpreter:
+    [success flag, generated files with the hash of their bytes] - a healthy project must fare the same whatever ran before"""
+    import contextlib
+    import shutil
+    from scriptplan.cli.main import run_scriptplan
+    tmp = tempfile.mkdtemp(prefix="c12cli-", dir=outdir)
+    try:
+        path = os.path.join(tmp, "probe.tjp")
+        with open(path, "w", encoding="utf-8") as f:
+            f.write(text)
+        od = os.path.join(tmp, "out")
+        os.makedirs(od)
+        with contextlib.redirect_stdout(io.StringIO()), contextlib.redirect_stderr(io.StringIO()):
+            try:
+                ok, _msg = run_scriptplan(path, od)
+            except SystemExit as e:
+                ok = f"SystemExit({e.code})"
+            except Exception as e:  # noqa: BLE001
+                ok = type(e).__name__
+        files = []
+        for root, _d, fs in os.walk(od):
+            for fn in sorted(fs):
+                with open(os.path.join(root, fn), "rb") as f:
+                    files.append([os.path.relpath(os.path.join(root, fn), od), hashlib.sha256(f.read()).hexdigest()[:16]])
+        return [ok if isinstance(ok, str) else bool(ok), sorted(files)]
+    finally:
+        shutil.rmtree(tmp, ignore_errors=True)
+
+
 def probe(sess, text, again, outdir, newparser=True, keep_struct=True):
     """the run whose output is the subject of C12: parse(+schedule), reports, then `again` further schedule() calls
     with a digest after each"""
@@ -760,6 +790,8 @@ def probe(sess, text, again, outdir, newparser=True, keep_struct=True):
                 out.setdefault("modeAgain", []).append(ma)
                 out["digests"].append(digest(proj, True, outdir))
                 sess.trace.take()
+            out["cli"] = cli_inprocess(text, outdir)
+            sess.trace.take()
     except SystemExit:
         out["exc"] = "SystemExit"
     except Exception as e:  # noqa: BLE001
@@ -843,6 +875,8 @@ def hidden_probe(req):
                 ds.append(digest(proj, True, req.get("outdir")))
         out["digests"] = ds if req.get("struct", True) else ds[:1]
         out["shas"] = [dsha(d) for d in ds]
+        with contextlib.redirect_stderr(err):
+            out["cli"] = cli_inprocess(req["probe"], req.get("outdir"))
     except SystemExit:
         out["exc"] = "SystemExit"
     except Exception as e:  # noqa: BLE001
